@@ -10,6 +10,10 @@ use std::sync::atomic::{AtomicBool, AtomicU64, Ordering};
 use std::sync::Mutex;
 use std::time::Instant;
 
+/// Repository under test (AGV_REPO is only set by bin/seed-matrix for a private copy; default /repo).
+pub fn repo_dir() -> String {
+    std::env::var("AGV_REPO").unwrap_or_else(|_| "/repo".to_string())
+}
 /// Root of the verification tree (AGV_ROOT is set by bin/check; default /verif).
 pub fn verif_dir() -> String {
     std::env::var("AGV_ROOT").unwrap_or_else(|_| "/verif".to_string())
